@@ -49,7 +49,12 @@ where
         if version.as_str() == FSM_READER_VERSION {
             fsm.name = self.reader.read_string();
             fsm.datamodel = self.reader.read_string();
-            fsm.binding = BindingType::from_ordinal(self.reader.read_u8());
+            let binding_ordinal = self.reader.read_u8();
+            // After an error the protocol reader answers with defaults (0 here): check before the ordinal is converted.
+            if self.reader.has_error() || !(1..=2).contains(&binding_ordinal) {
+                return Err("Can't read".to_string());
+            }
+            fsm.binding = BindingType::from_ordinal(binding_ordinal);
             fsm.pseudo_root = self.read_state_id();
             fsm.script = self.read_executable_content_id();
 
@@ -75,6 +80,11 @@ where
                     content.push(self.read_executable_content());
                 }
                 fsm.executableContent.insert(content_id, content);
+            }
+
+            // A truncated or damaged image leaves the protocol reader in its error state.
+            if self.reader.has_error() {
+                return Err("Can't read".to_string());
             }
 
             let end = SystemTime::now().duration_since(UNIX_EPOCH).unwrap();
